@@ -2,6 +2,7 @@ use crate::core::Monitor;
 
 pub mod c01;
 pub mod c02;
+pub mod c04;
 pub mod c13;
 pub mod c19;
 
@@ -9,6 +10,7 @@ pub fn get(id: &str) -> Option<Box<dyn Monitor>> {
     match id {
         "C01" => Some(Box::new(c01::C01)),
         "C02" => Some(Box::new(c02::C02)),
+        "C04" => Some(Box::new(c04::C04)),
         "C13" => Some(Box::new(c13::C13)),
         "C19" => Some(Box::new(c19::C19)),
         _ => None,
